@@ -38,10 +38,10 @@ F_ADDRANGE = 'C11-addrange-tail-overlap'
 F_SURR_OVERLAP = 'C11-overlap-surrogate'
 F_DOTSTAR = 'C11-dotstar-prefix-start'
 EXCLUDE_SURR_OVERLAP = os.environ.get('C11_NO_EXCLUDE_SURR', '') == ''
-EXCLUDE_HEAD_EMPTY = os.environ.get('C11_NO_EXCLUDE_HEADEMPTY', '') == ''
-EXCLUDE_HEAD_SURR = os.environ.get('C11_NO_EXCLUDE_HEADSURR', '') == ''
-EXCLUDE_FIXEDEND = os.environ.get('C11_NO_EXCLUDE_FIXEDEND', '') == ''
-EXCLUDE_ADDRANGE = os.environ.get('C11_NO_EXCLUDE_ADDRANGE', '') == ''
+EXCLUDE_HEAD_EMPTY = False      # fixed in /repo (fix: commit landed); class is generated and asserted again
+EXCLUDE_HEAD_SURR = False      # fixed in /repo (fix: commit landed); class is generated and asserted again
+EXCLUDE_FIXEDEND = False      # fixed in /repo (fix: commit landed); class is generated and asserted again
+EXCLUDE_ADDRANGE = False      # fixed in /repo (fix: commit landed); class is generated and asserted again
 F_HEAD_SURR = 'C11-headchar-surrogate'
 EXCLUDE_RECURSION = os.environ.get('C11_NO_EXCLUDE_RECURSION', '') == ''
 
